@@ -3,7 +3,7 @@
    kind, enum/float/double, data pointers, function pointers, by-value structs nested to any
    depth), every ABI satisfying abi_ok, every region, every well-typed argument list and
    guest result.  Statements only. *)
-From RLBoxV Require Import Invoke Invoke_proofs Conv_proofs World.
+From RLBoxV Require Import Invoke Invoke_proofs Conv_proofs World Symbols Symbols_proofs.
 Local Open Scope Z_scope.
 
 (* what the code computes (invoke: per-argument convert_type TO_SANDBOX through the wrapper's
@@ -34,6 +34,33 @@ Theorem C11_fn_address_order_independent : forall w i name,
   cache (get_sb (fst (ilookup_op w i name)) i) = cache (get_sb w i).
 Proof. exact lookup_kinds_independent. Qed.
 Print Assumptions C11_instance_isolation.
+
+(* the caches with their contents (name -> address), any number of instances each bound to its own library
+   [lib i]: after EVERY history of by-name invocations (public cache) and function-address requests (internal
+   cache) on any instances, each lookup yields the address of the named function in the library of the instance
+   asked - never one resolved for another instance, whatever was invoked or asked before or after - *)
+Theorem C11_symbol_of_own_library : forall (lib : nat -> Z -> Z) n ops,
+  forallb (op_in_range n) ops = true ->
+  map snd (snd (srun lib false (symw_init n) ops)) = sspec lib ops.
+Proof.
+  intros lib n ops H. apply srun_addresses; [apply sinv_init|].
+  unfold symw_init. rewrite repeat_length. exact H.
+Qed.
+Print Assumptions C11_symbol_of_own_library.
+(* - and the back end is asked exactly at the first lookup of each (kind of lookup, instance, name) *)
+Theorem C11_backend_asked_once : forall (lib : nat -> Z -> Z) n ops,
+  forallb (op_in_range n) ops = true ->
+  map fst (snd (srun lib false (symw_init n) ops)) = first_times [] ops.
+Proof.
+  intros lib n ops H. apply srun_asked; [apply cached_keys_init|].
+  unfold symw_init. rewrite repeat_length. exact H.
+Qed.
+Print Assumptions C11_backend_asked_once.
+(* one process-wide pair of caches would hand instance 1 the address resolved for instance 0 *)
+Theorem C11_shared_cache_refuted :
+  let lib := fun (i : nat) (n : Z) => 4096 + 256 * Z.of_nat i + n in
+  map snd (snd (srun lib true (symw_init 2) [SLook SInt 0 5; SLook SInt 1 5])) <> sspec lib [SLook SInt 0 5; SLook SInt 1 5].
+Proof. exact shared_cache_refuted. Qed.
 
 (* non-vacuity: a 4-parameter signature with a struct under the LP32-like ABI; one call with a
    representable list, one with a long that does not fit the guest's 32-bit long *)
